@@ -16,14 +16,16 @@ VERIF = os.path.dirname(os.path.dirname(os.path.abspath(__file__)))
 EXPECT = {
     "F1_range_overflow": ["C03", "C13"], "F2_zero_suffix": ["C03"], "F3_suffix_clamp": ["C03"],
     "F4_subsecond": ["C04", "C14"], "F5_ifmatch_ius": ["C04"], "F6_multipart_fuse": ["C20", "C12"],
-    "F7_reader_drop": ["C11"], "F8_plus_sign": ["C03"],
+    "F7_reader_drop": ["C11"], "F8_plus_sign": ["C03"], "F9_file_stream_not_fused": ["C20", "C13"],
+    "F10_gzip_flush_lost_sync": ["C09"],
     "M_cl_plus1": ["C01"], "M_ifmatch_weak": ["C04"], "M_ifrange_weak": ["C05"],
     "M_multipart_trailer_len": ["C06", "C01"], "M_short_ok": ["C07"], "M_head_fetches": ["C15"],
     "M_304_entity_headers": ["C14"], "M_gzip_gt": ["C16"], "M_star_identity": ["C16"],
     "M_no_wake_on_drop": ["C10"], "M_waker_not_refreshed": ["C10"], "M_fused_pending": ["C10"],
     "M_abort_clean": ["C11"], "M_eos_err": ["C11", "C12"], "M_flush_keeps_one": ["C08"],
     "M_gz_flush_inner_only": ["C09"], "M_hint_upper": ["C12"], "M_level0_header": ["C17"],
-    "M_head_writer": ["C15", "C17"], "M_lifo": ["C08"], "L_partial_chunking": [],
+    "M_head_writer": ["C15", "C17"], "M_lifo": ["C08"], "L_partial_chunking": [], "L_allow_case": [], "L_boundary": [], "L_chunk_double": [], "L_extra_header": [],
+    "L_ifrange_date_equal": [], "L_messages": [], "L_multipart_half": [], "L_part_header_lowercase": [], "L_vary_case": [],
     "M_zero_read_loop": ["C18"], "M_etag_micros": ["C18"], "M_chunk_overread": ["C18"],
     "M_dotdot_last": ["C19"], "M_gz_dir": ["C19"], "M_dots_overreject": ["C19"], "M_vary_only_gz": ["C19"],
 }
